@@ -27,6 +27,8 @@ type stepObs struct {
 	maxStack int
 	maxDepth int
 	viol     []string // "key|description"
+	staticWriteFaults int // write opcodes met at an iteration head inside a static frame
+	authcallFrames    int // frames started by AUTHCALL
 }
 
 var obs *stepObs
@@ -59,12 +61,18 @@ func (o *stepObs) step(depth int, pc uint64, op byte, gas uint64, stackLen int, 
 	if depth <= 0 {
 		return
 	}
+	if depth <= len(o.frames) && o.frames[depth-1].static && isWriteOp(op) {
+		o.staticWriteFaults++
+	}
 	if depth > len(o.frames) {
 		// a new frame (possibly several levels if empty-code frames were skipped: not possible, Run observes every level)
 		for len(o.frames) < depth {
 			st := false
 			if n := len(o.frames); n > 0 {
 				st = o.frames[n-1].static || o.frames[n-1].lastOp == 0xfa
+				if o.frames[n-1].lastOp == 0xf7 {
+					o.authcallFrames++
+				}
 			}
 			o.frames = append(o.frames, frameRec{static: st, lastGas: gas, lastMem: memLen, lastOp: op, lastPc: pc})
 		}
